@@ -14,3 +14,5 @@ def run(prog, rep):
     r_valid.run_sticky(prog, rep)
     r_valid.run_cover(prog, rep)
     r_valid.run_conditions(prog, rep)
+    from ..rules import r_unit as _ru3
+    _ru3.run_scaling(prog, rep)
